@@ -158,6 +158,8 @@ def run_shard(rec):
         check_tree(rec, g, root, dict(kind='forest', seed=rec.seed, shard=rec.shard, forest=k, tree=short(root)[:200]))
         if k == 0:
             rec.sample(dict(tree=short(root)), limit=2)
+    if rec.shard == 2:
+        expansion_counting(rec, g)
     # parse results
     for text in ['', 'abab', 'aabcde1+2', '-1!+2+3', 'vvabcz']:
         o = observe.observe(g, text)
@@ -197,6 +199,92 @@ def run_shard(rec):
                 rec.violation('deep:traverse-count:%s' % kind, 'traverse on a deep chain', dict(kind='deep', shape=kind, depth=depth), want_ev, n_ev)
         # break the chain iteratively so that deallocation does not recurse either
         del root
+
+
+class _Runaway(Exception):
+    pass
+
+
+def expansion_counting(rec, g):
+    """'Both expand a shared object or container only the first time they meet it', observed on the
+    containers themselves: list / dict subclasses that count how often they are iterated (any way of
+    reading the elements: iter, reversed, values, items, indexing), placed at several positions of a
+    tree (a DAG of nested shared lists, a list that contains itself, a dict reachable twice).  A
+    container read more than 8 times raises, so that a runaway shows as a verdict, not as a hang."""
+    reads = {}
+
+    def bump(c):
+        n = reads.get(id(c), 0) + 1
+        reads[id(c)] = n
+        if n > 8:
+            raise _Runaway('container read %d times' % n)
+
+    class CL(list):
+        def __iter__(self):
+            bump(self)
+            return list.__iter__(self)
+
+        def __reversed__(self):
+            bump(self)
+            return list.__reversed__(self)
+
+    class CD(dict):
+        def values(self):
+            bump(self)
+            return dict.values(self)
+
+        def items(self):
+            bump(self)
+            return dict.items(self)
+
+        def __iter__(self):
+            bump(self)
+            return dict.__iter__(self)
+
+    leaf_cls = [c for c in vars(g).values() if isinstance(c, type) and issubclass(c, g.ParsedObject) and len(getattr(c, '_fields', ())) == 1
+                and c.__name__ not in ('ParsedObject',)]
+    if not leaf_cls:
+        return
+    K = leaf_cls[0]
+    trees = []
+    # nested sharing: level i holds level i-1 twice (2^depth paths to the single object at the bottom)
+    x = K('bottom')
+    lvl = CL([x])
+    keep = [lvl]
+    for _ in range(30):
+        lvl = CL([lvl, lvl])
+        keep.append(lvl)
+    trees.append(('nested-shared-lists', lvl, keep, 1))
+    d = CD(a=K('in-dict'), b=K('in-dict-2'))
+    trees.append(('dict-twice', CL([d, K('between'), d]), [d], 3))
+    cyc = CL([K('in-cycle')])
+    cyc.append(cyc)
+    trees.append(('list-containing-itself', cyc, [cyc], 1))
+    dd = CD(k=K('v'))
+    dd['self'] = dd
+    trees.append(('dict-containing-itself', CL([dd]), [dd], 1))
+    for tag, root, containers, nobj in trees:
+        for fn_name in ('visit', 'traverse'):
+            reads.clear()
+            rec.case()
+            rec.nontrivial(('expansion', tag, fn_name))
+            case = dict(kind='expansion', tree=tag, function=fn_name)
+            try:
+                n = 0
+                for ev in getattr(g, fn_name)(root):
+                    n += 1
+                    if n > 100000:
+                        raise _Runaway('more than 100000 results')
+                rec.count('expansion_counted_containers', len(containers))
+                worst = max((reads.get(id(c), 0) for c in containers), default=0)
+                if worst > 1:
+                    rec.violation('expansion:%s:container-read-%d-times' % (fn_name, worst), 'iteration counters on shared containers', case,
+                                  'every container expanded at most once', 'a container was read %d times' % worst)
+                if fn_name == 'visit' and n != nobj:
+                    rec.violation('expansion:visit-count', 'visit on shared containers', case, nobj, n)
+            except _Runaway as e:
+                rec.violation('expansion:%s:runaway' % fn_name, 'iteration counters on shared containers', case,
+                              'every container expanded at most once', str(e))
 
 
 def _stack():
